@@ -28,6 +28,9 @@ func FixedTime() time.Time { return Now }
 
 const ServerName = "server.example.test"
 
+// AltName is a second name all genuine server certificates are valid for.
+const AltName = "alt.example.test"
+
 // PKI is everything the checks need; built once per process.
 type PKI struct {
 	CA, CA2             *gx509.Certificate
@@ -110,12 +113,12 @@ func Get() *PKI {
 		p.Roots2.AddCert(p.CA2)
 		signT := func(t *gx509.Certificate) {
 			t.KeyUsage = gx509.KeyUsageDigitalSignature
-			t.DNSNames = []string{ServerName}
+			t.DNSNames = []string{ServerName, AltName}
 			t.IPAddresses = []net.IP{net.ParseIP("127.0.0.1")}
 		}
 		encT := func(t *gx509.Certificate) {
 			t.KeyUsage = gx509.KeyUsageKeyEncipherment | gx509.KeyUsageDataEncipherment | gx509.KeyUsageKeyAgreement
-			t.DNSNames = []string{ServerName}
+			t.DNSNames = []string{ServerName, AltName}
 			t.IPAddresses = []net.IP{net.ParseIP("127.0.0.1")}
 		}
 		mk := func(der []byte, key crypto.PrivateKey) gmtls.Certificate {
@@ -166,7 +169,7 @@ func Get() *PKI {
 		p.StdRootsG.AddCert(mustParse(caDER))
 		leaf := func(serial int64, pub crypto.PublicKey, eku []stdx509.ExtKeyUsage, ku stdx509.KeyUsage) []byte {
 			t := &stdx509.Certificate{SerialNumber: big.NewInt(serial), Subject: pkix.Name{CommonName: "std leaf"}, NotBefore: time.Date(2020, 1, 1, 0, 0, 0, 0, time.UTC), NotAfter: time.Date(2030, 1, 1, 0, 0, 0, 0, time.UTC),
-				DNSNames: []string{ServerName}, KeyUsage: ku, ExtKeyUsage: eku}
+				DNSNames: []string{ServerName, AltName}, KeyUsage: ku, ExtKeyUsage: eku}
 			der, err := stdx509.CreateCertificate(rand.Reader, t, p.StdCA, pub, p.StdCAKey)
 			if err != nil {
 				panic(err)
